@@ -232,6 +232,7 @@ type Sim struct {
 	lastLeader      int
 	mgmtClass       string
 	mgmtStep        int
+	mgmtNoChange    bool
 	dir             *directed
 	skipFinale      bool
 	rconfAdd        bool
@@ -1029,7 +1030,7 @@ func (s *Sim) deathSig() string {
 		return p + "/data-race/one-command-at-a-time"
 	case s.listSeen && s.snapshotDue():
 		return p + "/node-death/snapshot-of-list"
-	case s.mgmtClass != "" && s.step-s.mgmtStep < 80 && !strings.HasPrefix(s.mgmtClass, "rconf-add-existing") && !s.rconfDel && !s.rconfAdd:
+	case s.mgmtClass != "" && s.step-s.mgmtStep < 80 && (s.mgmtNoChange || (!s.rconfDel && !s.rconfAdd)):
 		// a management command was issued a moment ago (the ones that go
 		// through the log are executed by every replica a few steps later)
 		return p + "/node-death/" + s.mgmtClass
@@ -1302,7 +1303,12 @@ func (s *Sim) noteCommand(args []B) {
 	}
 	if mi := mgmtShape(args, len(s.nodes)); mi.is {
 		s.fault("mgmt-" + mi.class)
-		s.mgmtClass, s.mgmtStep = mi.class, s.step
+		if mi.changes == "" || !(s.mgmtNoChange && s.step-s.mgmtStep < 80) {
+			// (a command that is not a well-formed membership change keeps the
+			// attribution for a while: the ones that go through the log are
+			// executed by every replica a few steps after they were sent)
+			s.mgmtClass, s.mgmtStep, s.mgmtNoChange = mi.class, s.step, mi.changes == ""
+		}
 		// a well-formed membership change written into a client program
 		id := int(mi.id)
 		switch {
